@@ -51,6 +51,16 @@ def worker(unit, emit):
         emit.count('modules_without_corpus')
         corp = ['0']
     bases = lib.pick_bases(name, mod, corp, p['bases'], rnd, corpus_items=lib.corpus(name, mod))
+    # numbers carrying a birth date: valid numbers for a few critical dates (leap days in and out of leap years, century turns)
+    # as further bases -- the dictionary characters ('+' of the Swedish number, century letters) are then applied to them
+    from props import c12
+    if name in c12.POS and corp:
+        try:
+            v0 = mod.validate(corp[0])
+            for date in ((2000, 2, 29), (1996, 2, 29), (1999, 12, 31), (2000, 1, 1)):
+                bases = bases + [x for x in c12.with_date(mod, name, v0, date, rnd)[:1] if x not in bases]
+        except Exception:
+            pass
     if bases and bases[0].isascii():
         bases = bases + [x for x in lib.literal_bases(mod, (mod.compact(bases[0]) if hasattr(mod, 'compact') else bases[0])) if x not in bases]
     emit.count('modules')
@@ -68,6 +78,23 @@ def worker(unit, emit):
         else:
             emit.count('rejected_or_raised')
 
+    # the date fields of the documented numbers set to critical dates, everything else (separators such as the Swedish '+',
+    # century digits, check digits) left as written: calendar arithmetic outside a try block shows here
+    if name in c12.POS:
+        yp, yl, mp, dp = c12.POS[name]
+        for v_ in list(dict.fromkeys(bases))[:6]:
+            try:
+                c_ = mod.validate(v_)
+            except Exception:
+                continue
+            if not isinstance(c_, str) or len(c_) < max(yp + yl, mp + 2, dp + 2):
+                continue
+            for (y_, m_, d_) in ((2000, 2, 29), (1996, 2, 29), (1900, 2, 29), (1999, 12, 31), (2000, 1, 1), (2001, 2, 29), (1980, 4, 31)):
+                w_ = list(c_)
+                w_[yp:yp + yl] = ('%0' + str(yl) + 'd') % (y_ % 10 ** yl)
+                w_[mp:mp + 2] = '%02d' % m_
+                w_[dp:dp + 2] = '%02d' % d_
+                rec(''.join(w_), 'date fields set to %04d-%02d-%02d' % (y_, m_, d_))
     for bi, base in enumerate(bases):
         rec(base, 'base')
         # depth-1 scripts: every position
